@@ -113,12 +113,18 @@ theorem keys_stSet_nodup {m : List (Id × Staged)} (i : Id) (x : Staged)
 
 /-! ## The invariant -/
 
+/-- the immutable columns of a staged copy are those of the stored row — or they were wiped by a
+staged purge, which also schedules the element's version rows for destruction -/
+def Imm (e : Elem) (x : Staged) : Prop :=
+  (e.row.ty = x.row.ty ∧ e.row.key = x.row.key ∧ e.row.tup = x.row.tup ∧ e.row.pay = x.row.pay) ∨
+  (x.row.ty = 0 ∧ x.row.key = 0 ∧ x.row.tup = none ∧ x.row.pay = 0 ∧ x.erase = true)
+
 /-- one staged entry against the store the transaction plans on -/
 def EntryOK (s : Store) (p : Id × Staged) : Prop :=
-  (p.2.isNew = true → p.2.op = .create) ∧
+  (p.2.isNew = true → p.2.op = .create ∨ p.2.op = .purge) ∧
   (p.2.isNew = false → p.2.op ≠ .create ∧
-    ∃ e, s.elems p.1 = some e ∧ e.version = p.2.version ∧ e.row.ty = p.2.row.ty ∧ e.row.key = p.2.row.key ∧
-      e.row.tup = p.2.row.tup ∧ e.row.pay = p.2.row.pay)
+    ∃ e, s.elems p.1 = some e ∧ e.version = p.2.version ∧ Imm e p.2) ∧
+  (p.2.erase = true → p.2.changed = true)
 
 structure SInv (p : PS) : Prop where
   wf : WF p.s
@@ -168,7 +174,7 @@ theorem load_entry {s : Store} {tx tx' : Tx} {id : Id} {x : Staged} {e : Option 
     · rename_i el hel
       cases hl
       have hx : EntryOK s (id, Staged.ofElem el) :=
-        ⟨(by intro h; cases h), fun _ => ⟨(by intro h; cases h), el, hel, rfl, rfl, rfl, rfl, rfl⟩⟩
+        ⟨(by intro h; cases h), fun _ => ⟨(by intro h; cases h), el, hel, rfl, .inl ⟨rfl, rfl, rfl, rfl⟩⟩, (by intro h; cases h)⟩
       exact ⟨h.set id _ hx rfl, hx⟩
 
 theorem expectVersion_sinv {s : Store} {tx tx' : Tx} {id : Id} {v : Nat} {e : Option Err}
@@ -182,22 +188,25 @@ theorem expectVersion_sinv {s : Store} {tx tx' : Tx} {id : Id} {v : Nat} {e : Op
     · cases hl; exact (load_entry h hld).1
     · cases hl
 
-/-- an edit of a staged copy that keeps the immutable columns and the version -/
+/-- an edit of a staged copy that keeps the immutable columns, the version and the purge mark -/
 theorem EntryOK.edit {s : Store} {id : Id} {x y : Staged} (hx : EntryOK s (id, x)) (op : Op) (hop : op ≠ .create)
     (hnew : y.isNew = x.isNew) (hver : y.version = x.version) (hty : y.row.ty = x.row.ty) (hkey : y.row.key = x.row.key)
-    (htup : y.row.tup = x.row.tup) (hpay : y.row.pay = x.row.pay) (hyop : y.op = if x.isNew then x.op else op) :
-    EntryOK s (id, y) := by
-  constructor
+    (htup : y.row.tup = x.row.tup) (hpay : y.row.pay = x.row.pay) (hyop : y.op = if x.isNew then x.op else op)
+    (her : y.erase = x.erase) (hch : y.changed = true) : EntryOK s (id, y) := by
+  refine ⟨?_, ?_, fun _ => hch⟩
   · intro hn
     have hxn : x.isNew = true := hnew ▸ hn
-    show y.op = .create
+    show y.op = .create ∨ y.op = .purge
     rw [hyop]; simp only [hxn, if_true]; exact hx.1 hxn
   · intro hn
     have hxn : x.isNew = false := hnew ▸ hn
-    obtain ⟨_, e, he, hv, h1, h2, h3, h4⟩ := hx.2 hxn
-    refine ⟨?_, e, he, hv.trans hver.symm, h1.trans hty.symm, h2.trans hkey.symm, h3.trans htup.symm, h4.trans hpay.symm⟩
-    show y.op ≠ .create
-    rw [hyop]; simp only [hxn, Bool.false_eq_true, if_false]; exact hop
+    obtain ⟨_, e, he, hv, himm⟩ := hx.2.1 hxn
+    refine ⟨?_, e, he, hv.trans hver.symm, ?_⟩
+    · show y.op ≠ .create
+      rw [hyop]; simp only [hxn, Bool.false_eq_true, if_false]; exact hop
+    · rcases himm with ⟨h1, h2, h3, h4⟩ | ⟨h1, h2, h3, h4, h5⟩
+      · exact .inl ⟨h1.trans hty.symm, h2.trans hkey.symm, h3.trans htup.symm, h4.trans hpay.symm⟩
+      · exact .inr ⟨hty.trans h1, hkey.trans h2, htup.trans h3, hpay.trans h4, her.trans h5⟩
 
 theorem spres_pFail (e : Err) : SPres (fun s tx => PS.fail s tx e) := fun _ _ _ h => h.same rfl
 
@@ -229,7 +238,7 @@ theorem spres_pBind (hh : Option Nat) (id : Id) : SPres (pBind hh id) := by
 
 theorem spres_pStageNew (id : Id) (row : Row) : SPres (pStageNew id row) := by
   intro s tx e h
-  exact h.set id _ ⟨fun _ => rfl, (by intro hn; cases hn)⟩ rfl
+  exact h.set id _ ⟨fun _ => .inl rfl, (by intro hn; cases hn), (by intro hn; cases hn)⟩ rfl
 
 theorem spres_pAssign (id : Id) (v : Option Nat) : SPres (pAssign id v) := by
   intro s tx e h
@@ -243,7 +252,7 @@ theorem spres_pAssign (id : Id) (v : Option Nat) : SPres (pAssign id v) := by
     · split
       · exact h1
       · refine h1.set id _ ?_ rfl
-        exact hx.edit .update (by decide) rfl rfl rfl rfl rfl rfl rfl
+        exact hx.edit .update (by decide) rfl rfl rfl rfl rfl rfl rfl rfl rfl
 
 theorem spres_pSetState (id : Id) (to : St) (x : Option St) : SPres (pSetState id to x) := by
   intro s tx e h
@@ -256,7 +265,7 @@ theorem spres_pSetState (id : Id) (to : St) (x : Option St) : SPres (pSetState i
     all_goals first
       | exact h1.same rfl
       | exact h1
-      | (refine h1.set id _ ?_ rfl; exact hy.edit _ (by decide) rfl rfl rfl rfl rfl rfl rfl)
+      | (refine h1.set id _ ?_ rfl; exact hy.edit _ (by decide) rfl rfl rfl rfl rfl rfl rfl rfl rfl)
 
 theorem spres_pRetract (id : Id) (x : Option Nat) : SPres (pRetract id x) := by
   intro s tx e h
@@ -269,7 +278,26 @@ theorem spres_pRetract (id : Id) (x : Option Nat) : SPres (pRetract id x) := by
     all_goals first
       | exact h1.same rfl
       | exact h1
-      | (refine h1.set id _ ?_ rfl; exact hy.edit _ (by decide) rfl rfl rfl rfl rfl rfl rfl)
+      | (refine h1.set id _ ?_ rfl; exact hy.edit _ (by decide) rfl rfl rfl rfl rfl rfl rfl rfl rfl)
+
+theorem spres_pPurge (id : Id) (b : Bool) : SPres (pPurge id b) := by
+  intro s tx e h
+  unfold pPurge
+  split
+  · exact h.same rfl
+  · rename_i tx1 y hl
+    obtain ⟨h1, hy⟩ := load_entry h hl
+    repeat' split
+    all_goals first
+      | exact h1.same rfl
+      | exact h1
+      | skip
+    refine h1.set id _ ?_ rfl
+    refine ⟨?_, ?_, fun _ => rfl⟩
+    · intro _; exact .inr rfl
+    · intro hn
+      obtain ⟨_, e', he', hv, _⟩ := hy.2.1 hn
+      exact ⟨(by intro hh; cases hh), e', he', hv, .inr ⟨rfl, rfl, rfl, rfl, rfl⟩⟩
 
 /-- minting a shell keeps the invariant: the new row sits at a free id -/
 theorem SInv.mint {s : Store} {tx : Tx} {e : Option Err} (h : SInv { s := s, tx := tx, err := e }) (k : Kind) :
@@ -284,8 +312,8 @@ theorem SInv.mint {s : Store} {tx : Tx} {e : Option Err} (h : SInv { s := s, tx 
     · apply hwf; split at hi <;> omega
   · intro q hq
     have hq0 := h.entries q hq
-    refine ⟨hq0.1, fun hn => ?_⟩
-    obtain ⟨h1, el, hel, rest⟩ := hq0.2 hn
+    refine ⟨hq0.1, fun hn => ?_, hq0.2.2⟩
+    obtain ⟨h1, el, hel, rest⟩ := hq0.2.1 hn
     refine ⟨h1, el, ?_, rest⟩
     simp only [mintShell, setElem]
     split
@@ -308,6 +336,7 @@ macro "spres_chain" h:ident : tactic => `(tactic|
     | exact spres_pStageNew _ _ _ _ _ $h
     | exact spres_pSetState _ _ _ _ _ _ $h
     | exact spres_pRetract _ _ _ _ _ $h
+    | exact spres_pPurge _ _ _ _ _ $h
     | exact spres_pAssign _ _ _ _ _ $h
     | exact spres_pFail _ _ _ _ $h
     | exact spres_pGuard _ _
